@@ -14,7 +14,7 @@ pub fn spec() -> PropSpec<Case> {
     id: "C10",
     strategy: case_strategy,
     check,
-    cases: |tier| tier.pick(4_000, 80_000),
+    cases: |tier| tier.pick(30_000, 600_000),
     rule: "generated packages mixing fully annotated, trivially inferable (literal initialisers, void bodies, defaulted parameters) and deliberately non-inferable declarations of every declaration and member kind (functions, methods, getters, constructors with super calls, properties, TS-private and #private members, namespaces), plus the fast-check spec corpus; non-trivial = an emitted module contains at least one function-like and one transformed initialiser, or the package was seeded with a non-inferable public declaration; distinct = distinct case JSON",
     assumptions: &[
       "'literal-like' is the closed grammar: literals, identifiers, this, member access, array / object literals, unary / update / binary / conditional / template expressions, parentheses, as / satisfies / non-null / const assertions, await, new expressions of identifiers, calls of `Symbol`, and nested function forms that satisfy the rules themselves",
